@@ -19,9 +19,10 @@ def plan(tier, ctx):
     j = []
     j += fvm.config('C11', 'signal_1w1r', 'signal.c', 2, 4, 'sc', srcs=src, defines=['NRAISE=1', 'NWAITS=1'], spec=fvm.kspec(2), bounds='1 wait, 1 raise', timeout=900)
     j += fvm.config('C11', 'signal_1w2r', 'signal.c', 3, 4, 'sc', srcs=src, defines=['NRAISE=2', 'NWAITS=1'], spec=fvm.kspec(3), bounds='1 wait, 2 raisers', timeout=1200)
-    j += fvm.config('C11', 'chan_unbounded_1x2', 'chan.c', 2, 5, 'sc', srcs=src, defines=['KIND=2', 'NSEND=1', 'NMSG=2'], spec=fvm.kspec(2), bounds='unbounded channel, 1 sender x 2', timeout=1800)
-    j += fvm.config('C11', 'chan_sp_1x2', 'chan.c', 2, 5, 'sc', srcs=src, defines=['KIND=3', 'NSEND=1', 'NMSG=2'], spec=fvm.kspec(2), bounds='single-producer channel, 2 messages', timeout=1800)
-    j += fvm.config('C11', 'chan_bounded_1x2', 'chan.c', 2, 5, 'sc', srcs=src, defines=['KIND=1', 'NSEND=1', 'NMSG=2'], spec=fvm.kspec(2), bounds='bounded channel cap 2, 1 sender x 2', timeout=1800)
+    j += fvm.config('C11', 'chan_unbounded_1x1', 'chan.c', 2, 4, 'sc', srcs=src, defines=['KIND=2', 'NSEND=1', 'NMSG=1'], spec=fvm.kspec(2), bounds='unbounded channel, 1 sender x 1', timeout=1500)
+    j += fvm.config('C11', 'chan_unbounded_1x2', 'chan.c', 2, 5, 'sc', srcs=src, defines=['KIND=2', 'NSEND=1', 'NMSG=2'], spec=fvm.kspec(2), bounds='unbounded channel, 1 sender x 2', timeout=2400, required=False)
+    j += fvm.config('C11', 'chan_sp_1x2', 'chan.c', 2, 5, 'sc', srcs=src, defines=['KIND=3', 'NSEND=1', 'NMSG=2'], spec=fvm.kspec(2), bounds='single-producer channel, 2 messages', timeout=2400, required=False)
+    j += fvm.config('C11', 'chan_bounded_1x2', 'chan.c', 2, 5, 'sc', srcs=src, defines=['KIND=1', 'NSEND=1', 'NMSG=2'], spec=fvm.kspec(2), bounds='bounded channel cap 2, 1 sender x 2', timeout=2400, required=False)
     if tier == 'thorough':
         j += fvm.config('C11', 'signal_2w2r', 'signal.c', 3, 5, 'sc', srcs=src, defines=['NRAISE=2', 'NWAITS=2'], spec=fvm.kspec(3), bounds='2 waits, 2 raisers', timeout=3000, required=False)
         j += fvm.config('C11', 'chan_unbounded_2x1', 'chan.c', 3, 5, 'sc', srcs=src, defines=['KIND=2', 'NSEND=2', 'NMSG=1'], spec=fvm.kspec(3), bounds='unbounded channel, 2 senders x 1', timeout=3000, required=False)
